@@ -1390,6 +1390,12 @@ public:
                             break;
                         case ' ':
                         case '\t':
+                            if (curr_char == field_delimiter_) // the delimiter itself (tab separated values): the first field is empty
+                            {
+                                begin_record(local_visitor, ec);
+                                state_ = csv_parse_state::unquoted_string;
+                                break;
+                            }
                             if (!trim_leading_)
                             {
                                 buffer_.push_back(static_cast<CharT>(curr_char));
